@@ -15,18 +15,24 @@ import (
 
 func sp() { rt.SyncPoint('a', 0) }
 
-func SwapInt32(addr *int32, new int32) int32       { sp(); return ra.SwapInt32(addr, new) }
-func SwapInt64(addr *int64, new int64) int64       { sp(); return ra.SwapInt64(addr, new) }
-func SwapUint32(addr *uint32, new uint32) uint32   { sp(); return ra.SwapUint32(addr, new) }
-func SwapUint64(addr *uint64, new uint64) uint64   { sp(); return ra.SwapUint64(addr, new) }
+func SwapInt32(addr *int32, new int32) int32         { sp(); return ra.SwapInt32(addr, new) }
+func SwapInt64(addr *int64, new int64) int64         { sp(); return ra.SwapInt64(addr, new) }
+func SwapUint32(addr *uint32, new uint32) uint32     { sp(); return ra.SwapUint32(addr, new) }
+func SwapUint64(addr *uint64, new uint64) uint64     { sp(); return ra.SwapUint64(addr, new) }
 func SwapUintptr(addr *uintptr, new uintptr) uintptr { sp(); return ra.SwapUintptr(addr, new) }
 func SwapPointer(addr *unsafe.Pointer, new unsafe.Pointer) unsafe.Pointer {
 	sp()
 	return ra.SwapPointer(addr, new)
 }
 
-func CompareAndSwapInt32(addr *int32, old, new int32) bool { sp(); return ra.CompareAndSwapInt32(addr, old, new) }
-func CompareAndSwapInt64(addr *int64, old, new int64) bool { sp(); return ra.CompareAndSwapInt64(addr, old, new) }
+func CompareAndSwapInt32(addr *int32, old, new int32) bool {
+	sp()
+	return ra.CompareAndSwapInt32(addr, old, new)
+}
+func CompareAndSwapInt64(addr *int64, old, new int64) bool {
+	sp()
+	return ra.CompareAndSwapInt64(addr, old, new)
+}
 func CompareAndSwapUint32(addr *uint32, old, new uint32) bool {
 	sp()
 	return ra.CompareAndSwapUint32(addr, old, new)
@@ -44,10 +50,10 @@ func CompareAndSwapPointer(addr *unsafe.Pointer, old, new unsafe.Pointer) bool {
 	return ra.CompareAndSwapPointer(addr, old, new)
 }
 
-func AddInt32(addr *int32, delta int32) int32       { sp(); return ra.AddInt32(addr, delta) }
-func AddUint32(addr *uint32, delta uint32) uint32   { sp(); return ra.AddUint32(addr, delta) }
-func AddInt64(addr *int64, delta int64) int64       { sp(); return ra.AddInt64(addr, delta) }
-func AddUint64(addr *uint64, delta uint64) uint64   { sp(); return ra.AddUint64(addr, delta) }
+func AddInt32(addr *int32, delta int32) int32         { sp(); return ra.AddInt32(addr, delta) }
+func AddUint32(addr *uint32, delta uint32) uint32     { sp(); return ra.AddUint32(addr, delta) }
+func AddInt64(addr *int64, delta int64) int64         { sp(); return ra.AddInt64(addr, delta) }
+func AddUint64(addr *uint64, delta uint64) uint64     { sp(); return ra.AddUint64(addr, delta) }
 func AddUintptr(addr *uintptr, delta uintptr) uintptr { sp(); return ra.AddUintptr(addr, delta) }
 
 func AndInt32(addr *int32, mask int32) int32     { sp(); return ra.AndInt32(addr, mask) }
@@ -59,85 +65,85 @@ func OrUint32(addr *uint32, mask uint32) uint32  { sp(); return ra.OrUint32(addr
 func OrInt64(addr *int64, mask int64) int64      { sp(); return ra.OrInt64(addr, mask) }
 func OrUint64(addr *uint64, mask uint64) uint64  { sp(); return ra.OrUint64(addr, mask) }
 
-func LoadInt32(addr *int32) int32       { sp(); return ra.LoadInt32(addr) }
-func LoadInt64(addr *int64) int64       { sp(); return ra.LoadInt64(addr) }
-func LoadUint32(addr *uint32) uint32    { sp(); return ra.LoadUint32(addr) }
-func LoadUint64(addr *uint64) uint64    { sp(); return ra.LoadUint64(addr) }
-func LoadUintptr(addr *uintptr) uintptr { sp(); return ra.LoadUintptr(addr) }
+func LoadInt32(addr *int32) int32                     { sp(); return ra.LoadInt32(addr) }
+func LoadInt64(addr *int64) int64                     { sp(); return ra.LoadInt64(addr) }
+func LoadUint32(addr *uint32) uint32                  { sp(); return ra.LoadUint32(addr) }
+func LoadUint64(addr *uint64) uint64                  { sp(); return ra.LoadUint64(addr) }
+func LoadUintptr(addr *uintptr) uintptr               { sp(); return ra.LoadUintptr(addr) }
 func LoadPointer(addr *unsafe.Pointer) unsafe.Pointer { sp(); return ra.LoadPointer(addr) }
 
-func StoreInt32(addr *int32, val int32)       { sp(); ra.StoreInt32(addr, val) }
-func StoreInt64(addr *int64, val int64)       { sp(); ra.StoreInt64(addr, val) }
-func StoreUint32(addr *uint32, val uint32)    { sp(); ra.StoreUint32(addr, val) }
-func StoreUint64(addr *uint64, val uint64)    { sp(); ra.StoreUint64(addr, val) }
-func StoreUintptr(addr *uintptr, val uintptr) { sp(); ra.StoreUintptr(addr, val) }
+func StoreInt32(addr *int32, val int32)                     { sp(); ra.StoreInt32(addr, val) }
+func StoreInt64(addr *int64, val int64)                     { sp(); ra.StoreInt64(addr, val) }
+func StoreUint32(addr *uint32, val uint32)                  { sp(); ra.StoreUint32(addr, val) }
+func StoreUint64(addr *uint64, val uint64)                  { sp(); ra.StoreUint64(addr, val) }
+func StoreUintptr(addr *uintptr, val uintptr)               { sp(); ra.StoreUintptr(addr, val) }
 func StorePointer(addr *unsafe.Pointer, val unsafe.Pointer) { sp(); ra.StorePointer(addr, val) }
 
 type Int32 struct{ v ra.Int32 }
 
-func (x *Int32) Load() int32                       { sp(); return x.v.Load() }
-func (x *Int32) Store(val int32)                   { sp(); x.v.Store(val) }
-func (x *Int32) Swap(new int32) int32              { sp(); return x.v.Swap(new) }
+func (x *Int32) Load() int32                        { sp(); return x.v.Load() }
+func (x *Int32) Store(val int32)                    { sp(); x.v.Store(val) }
+func (x *Int32) Swap(new int32) int32               { sp(); return x.v.Swap(new) }
 func (x *Int32) CompareAndSwap(old, new int32) bool { sp(); return x.v.CompareAndSwap(old, new) }
-func (x *Int32) Add(delta int32) int32             { sp(); return x.v.Add(delta) }
-func (x *Int32) And(mask int32) int32              { sp(); return x.v.And(mask) }
-func (x *Int32) Or(mask int32) int32               { sp(); return x.v.Or(mask) }
+func (x *Int32) Add(delta int32) int32              { sp(); return x.v.Add(delta) }
+func (x *Int32) And(mask int32) int32               { sp(); return x.v.And(mask) }
+func (x *Int32) Or(mask int32) int32                { sp(); return x.v.Or(mask) }
 
 type Int64 struct{ v ra.Int64 }
 
-func (x *Int64) Load() int64                       { sp(); return x.v.Load() }
-func (x *Int64) Store(val int64)                   { sp(); x.v.Store(val) }
-func (x *Int64) Swap(new int64) int64              { sp(); return x.v.Swap(new) }
+func (x *Int64) Load() int64                        { sp(); return x.v.Load() }
+func (x *Int64) Store(val int64)                    { sp(); x.v.Store(val) }
+func (x *Int64) Swap(new int64) int64               { sp(); return x.v.Swap(new) }
 func (x *Int64) CompareAndSwap(old, new int64) bool { sp(); return x.v.CompareAndSwap(old, new) }
-func (x *Int64) Add(delta int64) int64             { sp(); return x.v.Add(delta) }
-func (x *Int64) And(mask int64) int64              { sp(); return x.v.And(mask) }
-func (x *Int64) Or(mask int64) int64               { sp(); return x.v.Or(mask) }
+func (x *Int64) Add(delta int64) int64              { sp(); return x.v.Add(delta) }
+func (x *Int64) And(mask int64) int64               { sp(); return x.v.And(mask) }
+func (x *Int64) Or(mask int64) int64                { sp(); return x.v.Or(mask) }
 
 type Uint32 struct{ v ra.Uint32 }
 
-func (x *Uint32) Load() uint32                       { sp(); return x.v.Load() }
-func (x *Uint32) Store(val uint32)                   { sp(); x.v.Store(val) }
-func (x *Uint32) Swap(new uint32) uint32             { sp(); return x.v.Swap(new) }
+func (x *Uint32) Load() uint32                        { sp(); return x.v.Load() }
+func (x *Uint32) Store(val uint32)                    { sp(); x.v.Store(val) }
+func (x *Uint32) Swap(new uint32) uint32              { sp(); return x.v.Swap(new) }
 func (x *Uint32) CompareAndSwap(old, new uint32) bool { sp(); return x.v.CompareAndSwap(old, new) }
-func (x *Uint32) Add(delta uint32) uint32            { sp(); return x.v.Add(delta) }
-func (x *Uint32) And(mask uint32) uint32             { sp(); return x.v.And(mask) }
-func (x *Uint32) Or(mask uint32) uint32              { sp(); return x.v.Or(mask) }
+func (x *Uint32) Add(delta uint32) uint32             { sp(); return x.v.Add(delta) }
+func (x *Uint32) And(mask uint32) uint32              { sp(); return x.v.And(mask) }
+func (x *Uint32) Or(mask uint32) uint32               { sp(); return x.v.Or(mask) }
 
 type Uint64 struct{ v ra.Uint64 }
 
-func (x *Uint64) Load() uint64                       { sp(); return x.v.Load() }
-func (x *Uint64) Store(val uint64)                   { sp(); x.v.Store(val) }
-func (x *Uint64) Swap(new uint64) uint64             { sp(); return x.v.Swap(new) }
+func (x *Uint64) Load() uint64                        { sp(); return x.v.Load() }
+func (x *Uint64) Store(val uint64)                    { sp(); x.v.Store(val) }
+func (x *Uint64) Swap(new uint64) uint64              { sp(); return x.v.Swap(new) }
 func (x *Uint64) CompareAndSwap(old, new uint64) bool { sp(); return x.v.CompareAndSwap(old, new) }
-func (x *Uint64) Add(delta uint64) uint64            { sp(); return x.v.Add(delta) }
-func (x *Uint64) And(mask uint64) uint64             { sp(); return x.v.And(mask) }
-func (x *Uint64) Or(mask uint64) uint64              { sp(); return x.v.Or(mask) }
+func (x *Uint64) Add(delta uint64) uint64             { sp(); return x.v.Add(delta) }
+func (x *Uint64) And(mask uint64) uint64              { sp(); return x.v.And(mask) }
+func (x *Uint64) Or(mask uint64) uint64               { sp(); return x.v.Or(mask) }
 
 type Uintptr struct{ v ra.Uintptr }
 
-func (x *Uintptr) Load() uintptr                       { sp(); return x.v.Load() }
-func (x *Uintptr) Store(val uintptr)                   { sp(); x.v.Store(val) }
-func (x *Uintptr) Swap(new uintptr) uintptr            { sp(); return x.v.Swap(new) }
+func (x *Uintptr) Load() uintptr                        { sp(); return x.v.Load() }
+func (x *Uintptr) Store(val uintptr)                    { sp(); x.v.Store(val) }
+func (x *Uintptr) Swap(new uintptr) uintptr             { sp(); return x.v.Swap(new) }
 func (x *Uintptr) CompareAndSwap(old, new uintptr) bool { sp(); return x.v.CompareAndSwap(old, new) }
-func (x *Uintptr) Add(delta uintptr) uintptr           { sp(); return x.v.Add(delta) }
+func (x *Uintptr) Add(delta uintptr) uintptr            { sp(); return x.v.Add(delta) }
 
 type Bool struct{ v ra.Bool }
 
-func (x *Bool) Load() bool                       { sp(); return x.v.Load() }
-func (x *Bool) Store(val bool)                   { sp(); x.v.Store(val) }
-func (x *Bool) Swap(new bool) bool               { sp(); return x.v.Swap(new) }
+func (x *Bool) Load() bool                        { sp(); return x.v.Load() }
+func (x *Bool) Store(val bool)                    { sp(); x.v.Store(val) }
+func (x *Bool) Swap(new bool) bool                { sp(); return x.v.Swap(new) }
 func (x *Bool) CompareAndSwap(old, new bool) bool { sp(); return x.v.CompareAndSwap(old, new) }
 
 type Pointer[T any] struct{ v ra.Pointer[T] }
 
-func (x *Pointer[T]) Load() *T                       { sp(); return x.v.Load() }
-func (x *Pointer[T]) Store(val *T)                   { sp(); x.v.Store(val) }
-func (x *Pointer[T]) Swap(new *T) *T                 { sp(); return x.v.Swap(new) }
+func (x *Pointer[T]) Load() *T                        { sp(); return x.v.Load() }
+func (x *Pointer[T]) Store(val *T)                    { sp(); x.v.Store(val) }
+func (x *Pointer[T]) Swap(new *T) *T                  { sp(); return x.v.Swap(new) }
 func (x *Pointer[T]) CompareAndSwap(old, new *T) bool { sp(); return x.v.CompareAndSwap(old, new) }
 
 type Value struct{ v ra.Value }
 
-func (x *Value) Load() any                          { sp(); return x.v.Load() }
-func (x *Value) Store(val any)                      { sp(); x.v.Store(val) }
-func (x *Value) Swap(new any) any                   { sp(); return x.v.Swap(new) }
-func (x *Value) CompareAndSwap(old, new any) bool   { sp(); return x.v.CompareAndSwap(old, new) }
+func (x *Value) Load() any                        { sp(); return x.v.Load() }
+func (x *Value) Store(val any)                    { sp(); x.v.Store(val) }
+func (x *Value) Swap(new any) any                 { sp(); return x.v.Swap(new) }
+func (x *Value) CompareAndSwap(old, new any) bool { sp(); return x.v.CompareAndSwap(old, new) }
